@@ -1373,7 +1373,10 @@ impl<'a> JsonString<'a> {
     }
 
     fn find_end(&self) -> usize {
-        self.find_string_end() + 1 // Include closing quote
+        // Include the closing quote — when there is one: `find_string_end` returns
+        // `text.len()` for an unterminated string, and one past that is out of
+        // range for the slices the callers take.
+        (self.find_string_end() + 1).min(self.text.len())
     }
 
     fn find_string_end(&self) -> usize {
